@@ -353,6 +353,30 @@ Section WithPlan.
     check_storage ;;;
     with_lock (retry (fun x => renew_body cfg sp x force) o more).
 
+  (** ... with a context that is (or gets) cancelled: doWithRetry's select between the back-off timer and
+      ctx.Done() is a race when both are ready, so the number of attempts that actually ran ([nrun]) is
+      part of the observation; when the cancellation wins, the call returns context.Canceled - never
+      success (error class [EOther]). The Storage back-ends of the experiments ignore the cancelled
+      context (FileStorage; the double in its default mode), as do the issuer doubles. *)
+  Fixpoint retry_c {A} (body : oracle -> M A) (o : oracle) (more : list oracle) (nrun : nat) : M A :=
+    match nrun with
+    | O => fail EOther
+    | S n =>
+        x <- catch (body o) ;;
+        match x with
+        | inl a => ret a
+        | inr e => match more with [] => fail e | o' :: r => retry_c body o' r n end
+        end
+    end.
+  Definition obtain_async_c (cfg : config) (sp : subject) (o : oracle) (more : list oracle) (nrun : nat) : M unit :=
+    pre <- has_any (issuers cfg) (s_pre sp) ;;
+    if pre then ret tt else
+    check_storage ;;;
+    with_lock (retry_c (obtain_body cfg sp) o more nrun).
+  Definition renew_async_c (cfg : config) (sp : subject) (o : oracle) (more : list oracle) (force : bool) (nrun : nat) : M unit :=
+    check_storage ;;;
+    with_lock (retry_c (fun x => renew_body cfg sp x force) o more nrun).
+
   (** ** forceRenew / moveCompromisedPrivateKey *)
   Definition move_compromised (i : nat) (d : N) : M unit :=
     v <- load (i, d, FKey) ;;
